@@ -117,6 +117,9 @@ def generate(seed, tier, batch):
         "tape": seed, "user_steps": [], "n_engines": r.choice([2, 2, 3]), "subset_pick": (r.randrange(1 << 20) if r.random() < 0.4 else None),
         "reset_opts": ({"cutoff_dim": opts["cutoff_dim"] + 1} if backend == "fock" and r.random() < 0.3 else None),
     }
+    if script["reset_opts"] and r.random() < 0.5:
+        script["reset_opts"] = r.choice([{"pure": not opts["pure"]}, {"cutoff_dim": opts["cutoff_dim"] + 1, "pure": not opts["pure"]}])
+    script["double_reset"] = r.random() < 0.3
     # compile / optimize calls on user programs between runs
     for _ in range(r.randint(0, 3)):
         i = r.randrange(nseg)
@@ -128,10 +131,12 @@ def generate(seed, tier, batch):
     if kind == "crash":
         script["crash"] = {"kfrac": round(r.random(), 4), "when": r.choice(["before", "after"]),
                            "exc": r.choice(["InjectedFault", "KeyboardInterrupt", "MemoryError"]),
-                           "pattern": r.choice(["list", "seq"]), "recover": r.choice(["reset", "new_engine"])}
+                           "pattern": r.choice(["list", "seq"]), "recover": r.choice(["reset", "new_engine", "rerun_same"])}
+        if r.random() < 0.35:
+            script["crash"]["kfrac"] = round(script["crash"]["kfrac"] * 0.4, 4)  # more crashes inside the first segment
     elif kind == "sweep":
         script["crash"] = {"sweep": True, "exc": r.choice(["InjectedFault", "KeyboardInterrupt", "MemoryError"]),
-                           "pattern": r.choice(["list", "seq"]), "recover": r.choice(["reset", "new_engine"])}
+                           "pattern": r.choice(["list", "seq"]), "recover": r.choice(["reset", "new_engine", "rerun_same"])}
     return script
 
 
@@ -232,6 +237,13 @@ def execute(script, w):
             points = [(k, when) for k in range(ncalls) for when in ("before", "after")]
         else:
             points = [(min(ncalls - 1, int(crash["kfrac"] * ncalls)), crash["when"])] if ncalls else []
+        # number of backend calls the first segment makes while it executes (a crash at one of them leaves the engine without history)
+        R.plan.n = 0
+        R.outcomes.rewind()
+        R.engine().run(progs[0], args=script["bind"] or None, modes=[])
+        n_first = R.plan.n
+        ro = script.get("reset_opts")
+        fresh_ro = None
         for (k, when) in points:
             R.plan.n = 0
             R.plan.arm(k, when, crash["exc"])
@@ -255,15 +267,36 @@ def execute(script, w):
             if not check_fps(w, fp0, progs, "crashed-run", feats + ["crash"]):
                 return
             # (4b) bounded liveness: the very next run after the documented recovery completes and equals fresh
+            want_state, want_samples, want_applied = ref_state, ref_samples, ref_applied
             if k == 0 and when == "before":
                 # the backend never began a circuit: reset() of a never-started engine raises on a fresh engine too, and the
                 # engine has no history yet - recovery is simply to run again on the same engine
                 w.fault("recover_rerun_unstarted")
                 w.probes["crash_before_begin_circuit"] += 1
-            elif crash["recover"] == "reset":
+            elif crash["recover"] == "rerun_same" and k < n_first:
+                # the first segment of the session did not run to the end: the engine has no history (a segment is recorded once it has
+                # been executed), so the next run begins a new computation - no reset needed
+                w.fault("recover_rerun_same_engine")
+                if eng.run_progs:
+                    w.violation("recovery-equals-fresh", "Engine.run_progs-after-crash-in-first-segment", {"k": k, "when": when, "run_progs": len(eng.run_progs)}, feats + ["crash"])
+                    return
+            elif crash["recover"] in ("reset", "rerun_same"):
                 w.fault("recover_reset")
                 try:
-                    eng.reset()
+                    if ro:
+                        # reset with new backend options: like a fresh engine built with the updated options - whether or not the
+                        # interrupted run had got as far as entering a segment into the history
+                        eng.reset(ro)
+                        want = (fresh_ro,) if fresh_ro else ()
+                        if not want:
+                            ef = R.engine(dict(script["opts"], **ro))
+                            fs_, fm_, _ = R.run_chain(ef, progs, "list")
+                            fresh_ro = (fs_, fm_, applied_text(ef))
+                        want_state, want_samples, want_applied = fresh_ro
+                        if k < n_first:
+                            w.probes["reset_with_options_on_empty_history"] += 1
+                    else:
+                        eng.reset()
                 except Exception as ex:  # noqa
                     w.violation("reset-equals-fresh", "reset-after-crash", {"exc": type(ex).__name__, "msg": str(ex)[:200]}, feats + ["crash"])
                     return
@@ -276,11 +309,11 @@ def execute(script, w):
                 w.violation("recovery-liveness", "run-after-" + crash["recover"], {"exc": type(ex).__name__, "msg": str(ex)[:300], "k": k, "when": when},
                             feats + ["crash"])
                 return
-            d = obs_diff(ref_state, st, TOL) or samples_diff(ref_samples, sm)
+            d = obs_diff(want_state, st, TOL) or samples_diff(want_samples, sm)
             if d:
-                w.violation("recovery-equals-fresh", "state-after-" + crash["recover"], {"k": k, "when": when, "diff": d}, feats + ["crash"])
+                w.violation("recovery-equals-fresh", "state-after-" + crash["recover"], {"k": k, "when": when, "diff": d, "reset_opts": ro}, feats + ["crash"])
                 return
-            if applied_text(eng) != ref_applied:
+            if applied_text(eng) != want_applied:
                 w.violation("recovery-equals-fresh", "print_applied-after-" + crash["recover"], {"k": k, "when": when}, feats + ["crash"])
                 return
             if not check_fps(w, fp0, progs, "run-after-recovery", feats + ["crash"]):
@@ -409,6 +442,8 @@ def nonfault_checks(script, w, R, progs, fp0, e1, ref_state, ref_samples, ref_ap
     ro = script.get("reset_opts")
     w.step("reset", opts=ro)
     if ro:
+        if script.get("double_reset"):
+            e1.reset()
         e1.reset(ro)
         ef = R.engine(dict(script["opts"], **ro))
         fresh_state, fresh_samples, _ = R.run_chain(ef, progs, "list")
@@ -530,6 +565,8 @@ def shrink(script):
         yield dict(script, junk=dict(script["junk"], ops=[]))
     if script.get("reset_opts"):
         yield dict(script, reset_opts=None)
+    if script.get("double_reset"):
+        yield dict(script, double_reset=False)
     # simplify ops: drop dagger, replace symbolic parameter by a number
     for i, sp in enumerate(pool):
         for j, o in enumerate(sp["ops"]):
